@@ -6,6 +6,16 @@ ROOT = os.path.dirname(os.path.dirname(os.path.abspath(__file__)))
 
 # property id -> (engine, level category, technique, level text, level note, design ref)
 CHECKS = {
+    "C09": ("ENUM", "exploration",
+            "bounded-exhaustive enumeration of lengths/splits/alignments/boundary parameters against independent reference implementations (self-checked on published vectors)",
+            "Every message length 0..=1024, every split point for piecewise application, boundary keys/IVs/seeds/block indices, counter carries by direct state construction, every CPU-feature subset of the host for the SIMD helpers: the repository's Salsa20, ARC4, lookup3, MD5 keys and accelerated helpers are compared with reference implementations written from the algorithm descriptions; the references check themselves against 51 published known-answer vectors at start-up (a failing reference is a machinery error, never a verdict).",
+            "Trusted: the reference implementations (validated on published vectors) and value-obliviousness of the algorithms for keys/IVs outside the boundary set. Lengths above 1024 and features the host lacks are not covered. ARC4 'A' blocks are judged against the documented bare-key rule only.",
+            "DESIGN.md §4 C09"),
+    "C15": ("NET", "model_checking",
+            "exhaustive enumeration of accepted build databases x requests x transports through the real server and client code (function level and over loopback sockets), plus all arrival orders of misbehaving clients",
+            "Every single-record database over the field alphabets and the multi-record time-order databases that BuildDatabase::from_file accepts, x product x endpoint x TCP v1/v2 through the server's handle_command and the client's own parse path; the real tcp/http servers and RibbitClient/TactClient over loopback for a spanning subset; every multiset of <=2 misbehaving request classes with one well-formed client in every arrival order. Oracle: client-parsed rows equal the newest record field by field; a well-formed client is answered within 2 s; the server survives.",
+            "Trusted: loopback sockets stand for the network; 'newest' means chronologically newest; tied timestamps accept any tied record. Field values outside the alphabets are not covered.",
+            "DESIGN.md §4 C15"),
     "C06": ("CRASH", "fault_enumeration",
             "crash-point x torn-write enumeration over the strace-recorded syscall log of the real save routines, recovery with the real loaders",
             "For every scenario (short pre-history, then the save under test: IndexManager::save_all after add/remove/flush, ResidencyDb::save, LruManager::checkpoint_to_disk/shutdown, DiskCache::put/remove) the syscalls of the real routine are recorded with strace; every crash point, every durable prefix of the name-space operations and every prefix/tear/zero-tail variant of every un-synced write is materialised as a directory; the real loader must succeed and every object must equal its state before or after the save. The log interpretation is self-checked (full replay must reproduce the final directory).",
